@@ -124,6 +124,11 @@ func unlockCall(s ast.Stmt) bool {
 	return ok && (se.Sel.Name == "Unlock" || se.Sel.Name == "RUnlock")
 }
 
+func deferredUnlock(d *ast.DeferStmt) bool {
+	se, ok := d.Call.Fun.(*ast.SelectorExpr)
+	return ok && len(d.Call.Args) == 0 && (se.Sel.Name == "Unlock" || se.Sel.Name == "RUnlock")
+}
+
 func (r *rewriter) stmts(list []ast.Stmt) []ast.Stmt {
 	out := make([]ast.Stmt, 0, 2*len(list))
 	prevUnlock, prevLock := false, false
@@ -162,6 +167,11 @@ func (r *rewriter) stmts(list []ast.Stmt) []ast.Stmt {
 				kind = "locked" // the statement right after a lock was taken: a task held back here keeps the lock busy
 			}
 			out = append(out, &ast.ExprStmt{X: hookCall("Hit", newSite(r.fset, r.rel, s.Pos(), r.fn, kind))})
+			if d, ok := s.(*ast.DeferStmt); ok && deferredUnlock(d) {
+				// a lock given up by a deferred call is given up when the function returns: a deferred hook registered
+				// just BEFORE it runs just AFTER it, which is where the caller's check-then-act window opens
+				out = append(out, &ast.DeferStmt{Call: hookCall("Hit", newSite(r.fset, r.rel, s.Pos(), r.fn, "unlocked"))})
+			}
 			if g, ok := s.(*ast.GoStmt); ok {
 				out = append(out, r.goStmt(g))
 				continue
